@@ -617,6 +617,10 @@ func C19(r *vf.Run) {
 								}
 							}
 							sh.apply(c)
+							if n := len(sh.code); n <= capacity && string(buf[n:capacity]) != string(bufBefore[n:capacity]) {
+								r.Fail("accepted-call-writes-behind-itself", fmt.Sprintf("capacity %d: call #%d %s changed target byte %d, behind the %d bytes emitted so far", capacity, i, c, n+firstDiff(buf[n:capacity], bufBefore[n:capacity]), n), hs())
+								break
+							}
 							if e.Len() != len(sh.code) || e.PC() != sh.addr {
 								r.Fail("accepted-call-bookkeeping", fmt.Sprintf("capacity %d: after call #%d %s Len=%d PC=$%06x expected %d/$%06x", capacity, i, c, e.Len(), e.PC(), len(sh.code), sh.addr), hs())
 								break
